@@ -162,19 +162,33 @@ def main(argv=None):
             print("KNOWN-FINDING: property=%s %s %s" % (pid, f["id"], f.get("what", "")))
     replay_paths = []
     if new:
+        import subprocess
+
         os.makedirs(os.path.join(VERIF, "replays", pid), exist_ok=True)
         new.sort(key=lambda kv: (len(engine.canon(kv[1]["case"])), kv[0]))  # smallest first
-        checked = 0
-        for k, v in new[:25]:
-            if checked < 3 and not getattr(mod, "NO_REPRODUCE", False):
-                if not reproduce(mod, v):
-                    sys.stderr.write("BROKEN: violation vanished on replay: %s\n" % engine.canon(v)[:400])
-                    return 2
-                checked += 1
+        seen_keys = set()
+        tried = confirmed = 0
+        for k, v in new[:40]:
+            if k in seen_keys:
+                continue
+            seen_keys.add(k)
             path = os.path.join(VERIF, "replays", pid, k + ".json")
             with open(path, "w") as f:
                 json.dump({"property": pid, "case": v["case"], "violation": v["violation"]}, f, indent=1, default=str)
             replay_paths.append(path)
+            # every reported violation is first replayed in a FRESH interpreter (twice, inside pv.replay); a violation
+            # that depends on what this process happened to run before is not trusted
+            if not getattr(mod, "NO_REPRODUCE", False) and confirmed < 2 and tried < 6:
+                tried += 1
+                r = subprocess.run([sys.executable, "-m", "pv.replay", path], cwd=VERIF, capture_output=True, text=True)
+                if r.returncode == 1:
+                    confirmed += 1
+                elif r.returncode == 2:
+                    sys.stderr.write("BROKEN: replay of %s is not deterministic\n%s\n" % (path, r.stdout[-300:]))
+                    return 2
+        if tried and not confirmed:
+            sys.stderr.write("BROKEN: none of the first %d violations reproduces in a fresh interpreter\n" % tried)
+            return 2
 
     nviol_new = len(new) + max(0, unlisted_uncounted)
     cov = {
